@@ -60,6 +60,27 @@ CHECKS = {
         note="Trusts z3, the independent SQL parser and the function template table; no engine exists here for standard SQL / "
              "Athena, so counterexamples are replayed by re-running the live visitor and evaluating both trees under the "
              "counter-model; known finding: standard-dialect floor/ceiling text (pinned by the repo's tests) is not SQL."),
+    "C18": dict(
+        level="model_checking", engine="chx", design="DESIGN.md section 4 C18",
+        technique="CrossHair symbolic execution (z3) of infer_type / infer_return_type / typecheck with a free symbolic "
+                  "function name and symbolic producer choices of a typed expression generator, vs an independent OData "
+                  "return-type table",
+        text="Bounded model checking of the real type inference: the function name is an unconstrained symbolic string "
+             "(<= 18 chars), nested typed expressions to depth 3 with every inner producer choice symbolic; asserts "
+             "inferred type in {unknown, actual type}, typecheck never rejects a well-typed argument and rejects literals "
+             "of a disallowed kind; counterexamples replayed concretely.",
+        note="Trusts CrossHair/z3 and the reference return-type table transcribed from OData 4.01; nothing is claimed for "
+             "ill-typed expressions or names that are not built-ins."),
+    "C11": dict(
+        level="model_checking", engine="chx", design="DESIGN.md section 4 C11",
+        technique="CrossHair symbolic execution (z3) of ODataParser._function_call and of the real lexer+parser on call "
+                  "texts, with symbolic picks of name (run-time pool incl. near-misses), namespace and argument count, vs an "
+                  "independent OData arity table",
+        text="Bounded model checking of call acceptance: for every pool name x namespace kind x argument count 0..5 "
+             "CrossHair certifies exhaustion of the case split; outcome class, the four exception payload fields and "
+             "argument order are compared with a reference arity table; both the action and the text->parser entry point.",
+        note="Names are picks from a pool (live table, reference table, case variants, prefixes, extensions, fresh names) "
+             "because the table lookup hashes the name; names outside the pool are argued (KeyError branch), not decided."),
 }
 
 NOT_YET = {}
@@ -132,6 +153,7 @@ SOURCE_COMMITS = [
     "88f1746 fix: SQL dialects translate 'null eq x' to IS NULL like 'x eq null'",
     "beff0df fix: SQL dialects quote and escape literal LIKE patterns",
     "71d765e fix: SQL dialects render a duration without components as a zero interval",
+    "7cccd2c fix: parsing a call with three or more named parameters no longer raises AttributeError",
 ]
 
 if __name__ == "__main__":
